@@ -265,8 +265,11 @@ func c03(c *Ctx) {
 							present = append(present, t...)
 						}
 					}
-					// key must be the range key over observed
-					c.R.Check(flow.Strict.Any(lk.Index, func(v ssa.Value) bool { rg, ok := v.(*ssa.Range); return ok && rg.X == ssa.Value(observed) }), load.FuncName(gc)+": lookup key", c.pos(lk.Pos()), "desired is looked up by the observed entry's name", "desired is not looked up by the name of the observed entry")
+					// key must be the range key over observed (or over a copy of it)
+					c.R.Check(flow.Strict.Any(lk.Index, func(v ssa.Value) bool {
+						rg, ok := v.(*ssa.Range)
+						return ok && (rg.X == ssa.Value(observed) || flow.Default.Any(rg.X, func(x ssa.Value) bool { return x == ssa.Value(observed) }))
+					}), load.FuncName(gc)+": lookup key", c.pos(lk.Pos()), "desired is looked up by the observed entry's name", "desired is not looked up by the name of the observed entry")
 				}
 			}
 		}
@@ -278,7 +281,41 @@ func c03(c *Ctx) {
 		// two shapes: a delete set filled from observed∖desired and then ranged over,
 		// or the delete inside the range over observed, behind the absent edge
 		fused := delStore == nil && len(dels) == 1 && fromObserved(cfgx.CallArgs(dels[0])[1])
-		if delStore == nil && !fused {
+		// third shape: the delete set is a copy of observed from which every still-desired
+		// entry is removed (maps.Clone + maps.DeleteFunc, or the loops they stand for)
+		pruned := false
+		if delStore == nil && !fused && len(dels) == 1 {
+			var set ssa.Value
+			if flow.Default.Any(cfgx.CallArgs(dels[0])[1], func(v ssa.Value) bool {
+				rg, ok := v.(*ssa.Range)
+				if ok && rg.X != ssa.Value(observed) && flow.Default.Any(rg.X, func(x ssa.Value) bool { return x == ssa.Value(observed) }) {
+					set = rg.X
+				}
+				return set != nil
+			}) {
+				// delete(set, k) for every present k, before the API deletes
+				for _, x := range calls(gc, "builtin.delete") {
+					a := x.Common().Args
+					if len(a) != 2 || sole(a[0]) != sole(set) {
+						continue
+					}
+					okPresent, _ := cfgx.MustCross(x, present, nil)
+					loop := cfgx.LoopOf(x.Block())
+					complete := false
+					if loop != nil {
+						by, _ := cfgx.LoopBypass(loop, map[*ssa.BasicBlock]bool{x.Block(): true}, absent, nil)
+						exits, _ := cfgx.OnlyHeaderExits(loop)
+						complete = !by && exits
+					}
+					before := cfgx.InstrReaches(x, dels[0], nil) && !cfgx.InstrReaches(dels[0], x, nil)
+					c.R.Check(okPresent && complete && before && len(present) > 0, load.FuncName(gc)+": still-desired entries leave the delete set", c.pos(x.Pos()), "every entry of the copy of observed that desired contains is removed before anything is deleted", "the delete set (a copy of observed) is not pruned of exactly the still-desired entries before the deletes")
+					pruned = okPresent && complete && before
+				}
+			}
+		}
+		if pruned {
+			c.R.OK(load.FuncName(gc)+": del from observed", c.pos(dels[0].Pos()), "the delete set is a copy of observed")
+		} else if delStore == nil && !fused {
 			c.R.Unknown(load.FuncName(gc)+": delete set", c.pos(gc.Pos()), "neither a delete set filled from observed nor a delete inside the range over observed was found")
 		} else if !fused {
 			c.requireCross(load.FuncName(gc)+": del[name]= only when absent from desired", delStore, absent, "desired[name] lookup !ok")
@@ -292,6 +329,8 @@ func c03(c *Ctx) {
 		if c.expect("Delete", len(dels), 1, gc) {
 			if fused {
 				c.R.OK(site(dels[0])+" from-delete-set", c.pos(dels[0].Pos()), "the object deleted is the observed entry that is absent from desired")
+			} else if pruned {
+				c.R.OK(site(dels[0])+" from-delete-set", c.pos(dels[0].Pos()), "the object deleted ranges over the pruned copy of observed")
 			} else {
 				c.R.Check(delStore != nil && flow.Default.Any(cfgx.CallArgs(dels[0])[1], func(v ssa.Value) bool { rg, ok := v.(*ssa.Range); return ok && rg.X == delStore.Map }), site(dels[0])+" from-delete-set", c.pos(dels[0].Pos()), "the object deleted ranges over the delete set", "the object deleted does not come from the delete set")
 			}
